@@ -21,13 +21,27 @@
 (* machine allows; AgeFlowTrace replays recorded executions through Step.      *)
 EXTENDS Integers, Sequences
 
-Frame(kind, n) == [kind |-> kind, n |-> n, pc |-> (IF kind = "enc" THEN "wrap" ELSE "parse"), i |-> 0, lab |-> 0 - 1, opened |-> FALSE]
+\* (the "@type" comments are for Apalache, which checks an inductive invariant of one frame for ANY number of recipients
+\* and identities in AgeFlowInd.tla; TLC ignores them.  Results of Step have one record shape for that reason.)
+\* @typeAlias: frame = {kind: Str, n: Int, pc: Str, i: Int, lab: Int, opened: Bool};
+\* @typeAlias: event = {ev: Str, a: Seq(Int)};
+\* @typeAlias: result = {ok: Bool, f: $frame, pop: Bool, why: Str};
+AgeFlowAliases == TRUE
 
-Go(f) == [ok |-> TRUE, f |-> f, pop |-> FALSE]
-Pop(f) == [ok |-> TRUE, f |-> f, pop |-> TRUE]
-No(why) == [ok |-> FALSE, why |-> why]
+\* @type: (Str, Int) => $frame;
+Frame(kind, n) == [kind |-> kind, n |-> n, pc |-> (IF kind = "enc" THEN "wrap" ELSE "parse"), i |-> 0, lab |-> 0 - 1, opened |-> FALSE]
+NoFrame == Frame("none", 0)
+
+\* @type: ($frame) => $result;
+Go(f) == [ok |-> TRUE, f |-> f, pop |-> FALSE, why |-> ""]
+\* @type: ($frame) => $result;
+Pop(f) == [ok |-> TRUE, f |-> f, pop |-> TRUE, why |-> ""]
+\* @type: (Str) => $result;
+No(why) == [ok |-> FALSE, f |-> NoFrame, pop |-> FALSE, why |-> why]
+\* @type: ($event, Int) => Int;
 A(e, k) == IF k <= Len(e.a) THEN e.a[k] ELSE 0 - 1
 
+\* @type: ($frame, $event) => $result;
 DecStep(f, e) ==
   CASE e.ev = "age.dec.header" ->
          IF f.pc # "parse" THEN No("flow:header-parsed-twice")
@@ -54,6 +68,7 @@ DecStep(f, e) ==
          ELSE IF A(e, 1) = 0 THEN Pop([f EXCEPT !.pc = "failed"]) ELSE Pop([f EXCEPT !.pc = "done"])
     [] OTHER -> No("flow:encrypt-event-inside-decrypt")
 
+\* @type: ($frame, $event) => $result;
 EncStep(f, e) ==
   CASE e.ev = "age.enc.rand" ->
          IF (f.pc = "wrap" /\ f.i = 0) \/ f.pc = "nonce" THEN Pop([f EXCEPT !.pc = "failed"]) ELSE No("flow:rand-out-of-place")
@@ -80,21 +95,26 @@ EncStep(f, e) ==
          ELSE IF A(e, 1) = 0 THEN Pop([f EXCEPT !.pc = "failed"]) ELSE Pop([f EXCEPT !.pc = "done"])
     [] OTHER -> No("flow:decrypt-event-inside-encrypt")
 
+\* @type: ($event) => Bool;
 IsBegin(e) == e.ev \in {"age.enc.begin", "age.dec.begin"}
+\* @type: ($event) => $frame;
 NewFrame(e) == Frame(IF e.ev = "age.enc.begin" THEN "enc" ELSE "dec", A(e, 1))
 \* a call may start inside another only while that one is inside a recipient's Wrap or an identity's Unwrap
+\* @type: ($frame) => Bool;
 CanNest(f) == f.pc \in {"wrap", "unwrap"}
+\* @type: ($frame, $event) => $result;
 Step(f, e) == IF f.kind = "enc" THEN EncStep(f, e) ELSE DecStep(f, e)
 
-\* one event applied to a goroutine's stack: [ok, st] or [ok |-> FALSE, why]
+\* one event applied to a goroutine's stack: [ok, st, why]
+\* @type: (Seq($frame), $event) => {ok: Bool, st: Seq($frame), why: Str};
 Apply(st, e) ==
   IF IsBegin(e)
-  THEN IF Len(st) > 0 /\ ~CanNest(st[Len(st)]) THEN [ok |-> FALSE, why |-> "flow:call-started-while-the-previous-one-had-not-returned"]
-       ELSE IF A(e, 1) < 1 THEN [ok |-> FALSE, why |-> "flow:call-with-nothing-to-do-got-past-the-argument-check"]
-       ELSE [ok |-> TRUE, st |-> Append(st, NewFrame(e))]
-  ELSE IF Len(st) = 0 THEN [ok |-> FALSE, why |-> "flow:event-outside-any-call"]
+  THEN IF Len(st) > 0 /\ ~CanNest(st[Len(st)]) THEN [ok |-> FALSE, st |-> st, why |-> "flow:call-started-while-the-previous-one-had-not-returned"]
+       ELSE IF A(e, 1) < 1 THEN [ok |-> FALSE, st |-> st, why |-> "flow:call-with-nothing-to-do-got-past-the-argument-check"]
+       ELSE [ok |-> TRUE, st |-> Append(st, NewFrame(e)), why |-> ""]
+  ELSE IF Len(st) = 0 THEN [ok |-> FALSE, st |-> st, why |-> "flow:event-outside-any-call"]
   ELSE LET r == Step(st[Len(st)], e) IN
-       IF ~r.ok THEN [ok |-> FALSE, why |-> r.why]
-       ELSE IF r.pop THEN [ok |-> TRUE, st |-> SubSeq(st, 1, Len(st) - 1)]
-       ELSE [ok |-> TRUE, st |-> [st EXCEPT ![Len(st)] = r.f]]
+       IF ~r.ok THEN [ok |-> FALSE, st |-> st, why |-> r.why]
+       ELSE IF r.pop THEN [ok |-> TRUE, st |-> SubSeq(st, 1, Len(st) - 1), why |-> ""]
+       ELSE [ok |-> TRUE, st |-> [st EXCEPT ![Len(st)] = r.f], why |-> ""]
 =============================================================================
